@@ -127,8 +127,11 @@ Definition mitm (fl : flags) (v : val) : list ev :=
     if negb (match v_w v with WOk => true | _ => false end) then EModRes SConnOK :: fst r ++ [EClose]
     else EModRes SConnOK :: fst r ++ [EWrote SConnOK LOwn false] ++
          match v_after v with
-         | AfPlain | AfTLS => [EKeep]
-         | AfPeekErr | AfHandshakeErr | AfH2 => [EClose]
+         (* AfH2: `return p.MITMConfig.H2Config().Proxy(...)` hands the connection to the h2 relay; when the h2
+            session is over it returns nil (or an error that is not errClose), so handleLoop calls handle again,
+            whose readRequest fails on the finished connection: modelled as "kept", the next exchange is a read error *)
+         | AfPlain | AfTLS | AfH2 => [EKeep]
+         | AfPeekErr | AfHandshakeErr => [EClose]
          end.
 
 (* one pass through proxyConn.handle *)
